@@ -493,11 +493,67 @@ fn which_of(b: &[u8]) -> usize {
     }
 }
 
+/// "edited." helpers: the parsed view of every protected header of the message is changed after decoding
+/// WITHOUT clearing `original_data` (the crate documents that the retained bytes stay authoritative)
+trait EditProt {
+    fn edit(&mut self);
+}
+fn edit_prot(p: &mut coset::ProtectedHeader) {
+    p.header.key_id = b"EDITED".to_vec();
+}
+impl EditProt for CoseSign1 {
+    fn edit(&mut self) {
+        edit_prot(&mut self.protected);
+    }
+}
+impl EditProt for CoseSign {
+    fn edit(&mut self) {
+        edit_prot(&mut self.protected);
+        for s in self.signatures.iter_mut() {
+            edit_prot(&mut s.protected);
+        }
+    }
+}
+impl EditProt for CoseMac {
+    fn edit(&mut self) {
+        edit_prot(&mut self.protected);
+    }
+}
+impl EditProt for CoseMac0 {
+    fn edit(&mut self) {
+        edit_prot(&mut self.protected);
+    }
+}
+impl EditProt for CoseEncrypt {
+    fn edit(&mut self) {
+        edit_prot(&mut self.protected);
+    }
+}
+impl EditProt for CoseEncrypt0 {
+    fn edit(&mut self) {
+        edit_prot(&mut self.protected);
+    }
+}
+impl EditProt for CoseRecipient {
+    fn edit(&mut self) {
+        edit_prot(&mut self.protected);
+    }
+}
+
 fn op_helper(fnname: &str, src_hex: bool, data: &[u8], a: &[Vec<u8>]) -> Out {
+    let (fnname, edited) = match fnname.strip_prefix("edited.") {
+        Some(f) => (f, true),
+        None => (fnname, false),
+    };
     macro_rules! msg {
         ($t:ty) => {
             match get_msg::<$t>(src_hex, data)? {
-                Ok(m) => m,
+                Ok(mut m) => {
+                    if edited {
+                        m.edit();
+                    }
+                    m
+                }
                 Err(s) => return Ok(s),
             }
         };
